@@ -17,6 +17,7 @@ FAMILIES = {
     "scan": dict(seed=111, n=1500, opts={**OFF, "joins": False, "order": False, "max_rows": 8, "tables": 1, "const_atoms": False, "max_depth": 1}),
     "big": dict(seed=112, n=1200, opts={**OFF, "group": True, "max_rows": 14, "tables": 2, "cols": 3, "const_atoms": False, "boolops": False,
                                         "join_kinds": ["inner", "left"], "order_p": 0.8, "avg": False}),
+    "optshapes": dict(seed=113, n=3000, gen="OptShapes", opts={}),
     "cte": dict(seed=108, n=2000, opts={**OFF, "cte": True, "derived": True, "cte_p": 1.0, "boolops": False, "group": True}),
 }
 
